@@ -3,9 +3,11 @@
 set -u
 P=$1; shift
 cd /verif
+rm -rf build/evidence.keep; cp -r evidence build/evidence.keep
 git -C /repo apply "$P" || { echo "patch does not apply"; exit 2; }
 for pid in "$@"; do
   ./check $pid --tier quick 2>&1 | grep -E "VIOLATION|KNOWN|obligations" 
 done
 git -C /repo checkout -- .
+rm -rf evidence; mv build/evidence.keep evidence   # evidence must describe the unchanged tree
 git -C /repo status --short | head -3
